@@ -238,16 +238,20 @@ def implSelfTy (depMode : DepMode) (ind : ImplIndirection) (mockable : Bool) : T
       | .dynamic ty => ty
   | .concrete ty => ty.print
 
+/-- `opt_self_comma`: `self,` unless the function has no dependency or is an impl-block function
+    (whose `__impl` is an ordinary parameter) -/
+def selfCommaOf (ind : ImplIndirection) (tf : TraitFn) : Toks :=
+  match tf.deps, tf.sig.inputs, ind with
+  | .noDeps, _, _ => []
+  | _, [], _ => []
+  | _, _, .static_ _ => []
+  | _, _, .dynamic _ => []
+  | _, _ :: _, .none => [i "self", p ',']
+
 /-- body of a delegating method: `[Self::]f([self,] a, b)[.await]` -/
 def delegatingBody (mode : InputMode) (ind : ImplIndirection) (tf : TraitFn) : Toks :=
   let scoping : Toks := if mode == .implBlock then [i "Self"] ++ pathSep else []
-  let selfComma : Toks :=
-    match tf.deps, tf.sig.inputs, ind with
-    | .noDeps, _, _ => []
-    | _, [], _ => []
-    | _, _, .static_ _ => []
-    | _, _, .dynamic _ => []
-    | _, _ :: _, .none => [i "self", p ',']
+  let selfComma : Toks := selfCommaOf ind tf
   let args : Toks := joinSep [p ','] ((paramIdents tf.sig.inputs).map fun a => [i a])
   scoping ++ [i tf.sig.ident, parens (selfComma ++ args)] ++
   (if tf.originallyAsync then [p '.', i "await"] else [])
